@@ -25,7 +25,7 @@ func genLayoutTree(c *core.Ctx, cfgIdx int) layoutCase {
 	cfg := treeConfigs[cfgIdx%len(treeConfigs)]
 	t := newTree(cfg.dir, cfg.ext)
 	g := newStmtGen(r, stmtGenOpts{MaxDepth: 1 + r.Intn(3), IfHeavy: true, LoopHeavy: r.Intn(2) == 0})
-	layoutName := []string{"layouts/main", "layouts/base.v2", "shared/frame", "layouts/mail.min", "layouts/odd" + cfg.ext}[r.Intn(5)]
+	layoutName := []string{"layouts/main", "layouts/base.v2", "shared/frame", "layouts/mail.min", "layouts/odd" + cfg.ext, "layouts/~base", "layouts/a~b", "layouts/sub/inner"}[r.Intn(8)]
 	reserves := fmtNames("r", 1+r.Intn(3))
 	body := g.program(2 + r.Intn(4))
 	body = insertReserves(r, body, reserves)
@@ -108,7 +108,7 @@ func init() {
 					lc := genLayoutTree(c, i)
 					st := exprLayouts[[]int{0, 1, 3, 0}[i%4]].st(c.Rng)
 					files := lc.tree.sources(st)
-					tpl, err := loadTree(c, strings.TrimPrefix(strings.TrimSuffix(lc.tree.dir, "/"), "./"), files, lc.tree.ext)
+					tpl, err := loadTreeAs(c, treeDir(lc.tree), lc.tree.dir, files, lc.tree.ext)
 					key := fmt.Sprint(files)
 					c.Nontrivial(key)
 					if i < 2 {
@@ -180,7 +180,7 @@ func init() {
 					}
 					lc.tree.files[page] = stmts
 					files := lc.tree.sources(model.Style{Layout: model.SpaceLayout})
-					tpl, err := loadTree(c, strings.TrimPrefix(strings.TrimSuffix(lc.tree.dir, "/"), "./"), files, lc.tree.ext)
+					tpl, err := loadTreeAs(c, treeDir(lc.tree), lc.tree.dir, files, lc.tree.ext)
 					c.Nontrivial(fmt.Sprint(fault, files))
 					if i < 6 {
 						c.Sample(map[string]any{"fault": fault, "page": page, "files": describeFiles(files)})
